@@ -53,6 +53,9 @@ func exec(op string) (res string) {
 		}
 		return v
 	}
+	if a, ok := execDecode(w, hx); ok {
+		return a
+	}
 	switch w[0] {
 	case "parse":
 		s := string(hx(1))
@@ -458,6 +461,8 @@ func main() {
 	}
 	// (first in the stream: the check driver keeps the first 50 disagreements, and these are the ones that
 	// name a failing input of the property itself)
+	// destination state of every decoding entry point (spec-backed)
+	runDecode(r, out, mult)
 	// property oracles on the representable range
 	for i := 0; i < 2000*mult; i++ {
 		t, cls := genT(r)
